@@ -56,7 +56,7 @@ func VerifC16_MatchSemantics() {
 		vfAssert("set-is-a-disjunction", MatcherSet{&b, &a}.Matches(lset) == got)
 	default:
 		// concrete patterns and values: anchoring
-		pat := []string{"a|b", "a.*", "", "b"}[vfChoice("pattern", 4)]
+		pat := []string{"a|b", "a.*", "", "b", ".*", ".+"}[vfChoice("pattern", 6)]
 		cv := []string{"a", "ab", "xa", "", "b"}[vfChoice("value", 5)]
 		m, err := NewMatcher(op, "job", pat)
 		vfAssert("new-ok", err == nil)
@@ -87,6 +87,12 @@ func VerifC16_MatchSemantics() {
 			whole = sv == ""
 		case "b":
 			whole = sv == "b"
+		case ".*", ".+":
+			// the dot does not match a line feed (no (?s) flag is added)
+			whole = pat == ".*" || len(sv) >= 1
+			for i := 0; i < len(sv); i++ {
+				whole = vfAnd(whole, sv[i] != '\n')
+			}
 		}
 		if op == MatchNotRegexp {
 			whole = !whole
